@@ -35,6 +35,8 @@ SOLVES = {
     "D": dict(ny=3, nx=4, dx=10.0, dy=12.0, pid="P1", n=3, halo=13.1, modes=(4, 2), levels=[1, 3], precision="double", fp=False, analytic=True),
     "E": dict(ny=3, nx=4, dx=10.0, dy=12.0, pid="P2", n=3, halo=13.1, modes=(4, 2), levels=[1, 3], precision="single", fp=True),
     "F": dict(ny=3, nx=4, dx=10.0, dy=12.0, pid="P2", n=3, halo=13.1, modes=(4, 2), levels=[1, 3], precision="double", fp=True),
+    # same domain (40 x 36), halo, modes, profiles as A on another grid: the padded extents differ (56 x 54 against 60 x 60)
+    "G": dict(ny=4, nx=5, dx=8.0, dy=9.0, pid="P2", n=3, halo=13.1, modes=(4, 2), levels=[1, 3], precision="double", fp=False),
 }
 # "M": the caller overwrites the contents of the argument arrays IN PLACE (same objects, new values:
 # a second symbolic source, perturbed profiles) - what a time series does with a reused buffer
@@ -304,7 +306,7 @@ def canary_job(args):
     except KeyError:
         return name, False, False
     cex = []
-    hs = [["B", "A"], ["A", "B"], ["T4", "A"], ["C", "A"], ["A", "A"], ["A", "C", "A"], ["D", "T2", "F"], ["A", "M", "A"], ["F", "M", "F"]]
+    hs = [["B", "A"], ["A", "B"], ["T4", "A"], ["C", "A"], ["A", "A"], ["A", "C", "A"], ["D", "T2", "F"], ["A", "M", "A"], ["F", "M", "F"], ["A", "G"], ["G", "A"]]
     try:
         ctx.new_sym()
     except KeyError:
